@@ -61,6 +61,10 @@ pub trait HC: Codec + 'static + std::panic::RefUnwindSafe + std::panic::UnwindSa
     fn sym_cmp(_a: Self, _b: Self) -> Option<Ordering> {
         None
     }
+    /// hand-built `SeqArray<Self, N, W>` holding the content of `x` (N = x.len(), W = words needed), passed on through Deref
+    fn arr_dispatch<T>(x: &SeqSlice<Self>, cont: &mut dyn FnMut(&SeqSlice<Self>) -> crate::eval::R<T>) -> crate::eval::R<T>;
+    /// `Seq::<Self>::from(&SeqArray)` / `Seq::<Self>::from(SeqArray)`
+    fn fromarr_dispatch(byval: bool, x: &SeqSlice<Self>) -> crate::eval::R<Seq<Self>>;
     /// `From<Vec<usize>> for Seq<text::Dna>` (only that codec has it)
     fn seq_from_vec_usize(_ws: Vec<usize>) -> Option<Seq<Self>> {
         None
@@ -73,6 +77,52 @@ pub trait HC: Codec + 'static + std::panic::RefUnwindSafe + std::panic::UnwindSa
     fn kd_dispatch<T>(k: usize, x: &SeqSlice<Self>, cont: &mut dyn FnMut(&SeqSlice<Self>) -> crate::eval::R<T>) -> crate::eval::R<T>;
     fn ofkmer_dispatch(k: usize, x: &SeqSlice<Self>) -> crate::eval::R<Seq<Self>>;
     fn kmers_adapt(k: usize, ad: &str, arg: usize, x: &SeqSlice<Self>) -> crate::eval::R<String>;
+}
+
+/// build `SeqArray<A, N, W>` from the first `N` symbols' bits of `x` (public fields, as a user could)
+pub fn make_arr<A: HC, const N: usize, const W: usize>(x: &SeqSlice<A>) -> SeqArray<A, N, W> {
+    use bitvec::prelude::*;
+    let own: Seq<A> = x.to_owned();
+    let raw = own.into_raw();
+    let mut ba: BitArray<[usize; W], Lsb0> = BitArray::ZERO;
+    for (i, w) in ba.as_raw_mut_slice().iter_mut().enumerate() {
+        *w = raw.get(i).copied().unwrap_or(0);
+    }
+    SeqArray { _p: core::marker::PhantomData, ba }
+}
+
+/// lengths for which hand-built arrays are instantiated
+#[macro_export]
+macro_rules! arr_methods {
+    ($ty:ty) => {
+        $crate::arr_methods!(@go $ty; 1 2 3 4 5 8 10 11 12 13 15 16 17 21 31 32 33 48 63 64 65 96 128);
+    };
+    (@go $ty:ty; $($n:literal)*) => {
+        fn arr_dispatch<T>(x: &SeqSlice<Self>, cont: &mut dyn FnMut(&SeqSlice<Self>) -> $crate::eval::R<T>) -> $crate::eval::R<T> {
+            match x.len() {
+                $($n => {
+                    const W: usize = ($n * <$ty as Codec>::BITS as usize + 63) / 64;
+                    let arr = $crate::hc::make_arr::<$ty, $n, W>(x);
+                    let viaref: &SeqSlice<$ty> = arr.as_ref();
+                    if $crate::eval::content(viaref) != $crate::eval::content(&arr) {
+                        return Err($crate::eval::Fail::BadOp("asref-differs-from-deref".into()));
+                    }
+                    cont(&arr)
+                })*
+                _ => Err($crate::eval::Fail::Unsup),
+            }
+        }
+        fn fromarr_dispatch(byval: bool, x: &SeqSlice<Self>) -> $crate::eval::R<Seq<Self>> {
+            match x.len() {
+                $($n => {
+                    const W: usize = ($n * <$ty as Codec>::BITS as usize + 63) / 64;
+                    let arr = $crate::hc::make_arr::<$ty, $n, W>(x);
+                    Ok(if byval { Seq::<$ty>::from(arr) } else { Seq::<$ty>::from(&arr) })
+                })*
+                _ => Err($crate::eval::Fail::Unsup),
+            }
+        }
+    };
 }
 
 macro_rules! comp_methods {
@@ -164,6 +214,7 @@ macro_rules! ord_methods {
 }
 
 impl HC for Dna {
+    crate::arr_methods!(Dna);
     fn sym_to_forms(s: Self) -> String {
         format!("{:02x}", s.to_comp().to_bits())
     }
@@ -177,6 +228,7 @@ impl HC for Dna {
 }
 
 impl HC for Iupac {
+    crate::arr_methods!(Iupac);
     fn sym_to_forms(s: Self) -> String {
         // copying complement; `From<Iupac> for u8`
         format!("{:02x}{:02x}", s.to_comp().to_bits(), u8::from(s))
@@ -190,6 +242,7 @@ impl HC for Iupac {
 }
 
 impl HC for Amino {
+    crate::arr_methods!(Amino);
     fn sym_to_forms(s: Self) -> String {
         // `From<Amino> for u8`; `Display for Amino`
         let d = format!("{s}");
@@ -203,6 +256,7 @@ impl HC for Amino {
 }
 
 impl HC for text::Dna {
+    crate::arr_methods!(text::Dna);
     fn sym_to_forms(s: Self) -> String {
         // `From<text::Dna> for u8`
         format!("{:02x}", u8::from(s))
@@ -219,6 +273,7 @@ impl HC for text::Dna {
 }
 
 impl HC for masked::Dna {
+    crate::arr_methods!(masked::Dna);
     fn sym_to_forms(s: Self) -> String {
         format!("{:02x}", s.to_comp().to_bits())
     }
@@ -233,6 +288,7 @@ impl HC for masked::Dna {
 }
 
 impl HC for masked::Iupac {
+    crate::arr_methods!(masked::Iupac);
     fn sym_to_forms(s: Self) -> String {
         format!("{:02x}{:02x}", s.to_mask().to_bits(), s.to_unmask().to_bits())
     }
@@ -247,6 +303,7 @@ impl HC for masked::Iupac {
 }
 
 impl HC for degenerate::Dna {
+    crate::arr_methods!(degenerate::Dna);
     const NAME: &'static str = "deg";
     const HAS_COMP: bool = true;
     const HAS_MASK: bool = false;
